@@ -488,12 +488,7 @@ func ruleTreeDelegation(c *Ctx, r *R) {
 				}
 			})
 			if n == "Len" {
-				good := false
-				instrs(fn, func(b *ssa.BasicBlock, i int, in ssa.Instruction) {
-					if ret, ok := in.(*ssa.Return); ok && strings.HasSuffix(path(ret.Results[0]), ".t.size") {
-						good = true
-					}
-				})
+				good := returnsField(fn, "size")
 				r.ok(good, key, fn.Pos(), "Len must report the tree's size")
 				continue
 			}
@@ -548,19 +543,34 @@ func ruleTreeDelegation(c *Ctx, r *R) {
 		}
 	}
 	// Set's Range/RangeReverse project the key
-	for _, n := range []string{"Set.Range$1", "Set.RangeReverse$1"} {
-		f := c.fn(treeRel + "." + n)
-		if f == nil {
-			r.undecided("tree."+n+"|missing", token.NoPos, "anchor not found")
+	for _, n := range []string{"Set.Range", "Set.RangeReverse"} {
+		outer := c.fn(treeRel + "." + n)
+		if outer == nil {
+			r.undecided("tree."+n+"$1|missing", token.NoPos, "anchor not found")
+			continue
+		}
+		// the projection: the function handed to iterator.Map (a literal or a named helper)
+		var f *ssa.Function
+		instrs(outer, func(b *ssa.BasicBlock, i int, in ssa.Instruction) {
+			if call, ok := in.(*ssa.Call); ok && len(call.Call.Args) == 2 {
+				if cal := calleeOf(&call.Call); cal != nil && origin(cal).Name() == "Map" && origin(cal).Pkg != nil && strings.HasSuffix(origin(cal).Pkg.Pkg.Path(), "/iterator") {
+					if pf, _ := funcAndReceiver(call.Call.Args[1]); pf != nil {
+						f = origin(pf)
+					}
+				}
+			}
+		})
+		if f == nil || len(f.Params) == 0 {
+			r.undecided("tree."+n+"$1|missing", token.NoPos, "anchor not found")
 			continue
 		}
 		good := false
 		instrs(f, func(b *ssa.BasicBlock, i int, in ssa.Instruction) {
-			if ret, ok := in.(*ssa.Return); ok && path(ret.Results[0]) == f.Params[0].Name()+".Key" {
+			if ret, ok := in.(*ssa.Return); ok && path(ret.Results[0]) == f.Params[len(f.Params)-1].Name()+".Key" {
 				good = true
 			}
 		})
-		r.ok(good, "tree."+n+"|projects-key", f.Pos(), "a Set iterator must yield the pair's Key")
+		r.ok(good, "tree."+n+"$1|projects-key", f.Pos(), "a Set iterator must yield the pair's Key")
 	}
 }
 
